@@ -20,6 +20,9 @@ package execext
 // whatever the interpreter reports for it - an exit status, a cancelled or expired context - is handed to the
 // caller unchanged (a command that was killed part-way is a failed command; nil means it ran to completion)
 //@   site (*Runner).Run#0 ghost interpErr := result
+// the command writes straight into the writers it was given (the group / prefix writers that collect its output):
+// nothing sits in between that could drop, delay or reorder bytes - not after a cancellation either
+//@   site interp.StdIO#0 requires arg0 == opts.Stdin && arg1 == opts.Stdout && arg2 == opts.Stderr               [C17,C02]
 //@   ensures result == nil ==> interpErr == nil                                                       [C03,C04,C13]
 //@   ensures interpErr != nil ==> result == interpErr                                                 [C03,C04]
 
